@@ -1,5 +1,6 @@
 import MalVerif.Proofs.ParseFuel
 import MalVerif.Proofs.LexRender
+import MalVerif.Proofs.PrintLexable
 import MalVerif.Proofs.ParseComplete
 /-!
 # C04 — the compiler's output is the language the source text denotes
@@ -21,7 +22,8 @@ is at the level of tokens; identifiers, numbers and strings are arbitrary `Strin
   compiler arrives at for an expression followed by tokens with `dotAhead = d`.
 * **Multiplicities**: `mult_normalise`.
 * **Includes**: `dedup_dedup_append`, `dedup_repeat` (`include_flatten`).
-* **Text**: `lex_render_partial`, `compile_render_print`.
+* **Text**: `lex_render_partial`, `compile_render_print`; from conditions on the names and literals of the
+  specification alone (`NamesLexable`, decided by `namesLexableB`): `prSpec_lexable`, `compile_render_print_names`.
 * **Fuel**: `fuel_mono` (TTC parsers, `parseArgs`, `parseCias`), `fuel_mono_partial` (all others, with fuel at
   least three times the input); unconditional monotonicity is false for them (`fuel_mono_fails`).
 -/
@@ -326,12 +328,39 @@ theorem compile_render_print (files : String → Option String) (f : Nat) (name 
 lexes as INT -/
 example : lex (render [.float "3"]) = some [.int "3"] := by decide
 
-/- UNPROVED (not attempted): lexability of the printed specification from conditions on its names, i.e.
-     theorem prSpec_lexable (s : CSpec) (h : every name / tag / key / type name occurring in s satisfies
-         `ident_lexable`'s hypotheses, every string `noQuote`, every TTC number is `digits? . digits`) :
-       ∀ t ∈ prSpec s, LexOK t
-   `compile_render_print` takes `∀ t ∈ prSpec s, LexOK t` as a hypothesis instead; for a concrete specification it
-   is decided by `lexOKb` (see `demoSpec_lexable`).
+/-- **the printed specification is lexable when its names and literals are**.  `NamesLexable s`
+(`Proofs/PrintLexable.lean`) speaks only about what occurs in `s`: every define key, category, asset, super asset,
+variable, step, tag, field, sub-type, association, meta key and TTC distribution name is `IdentOK` (non-empty,
+characters of `[A-Za-z0-9_]`, not all digits, none of `reservedWords`), every define / meta value is `noQuote`,
+every TTC number and distribution argument is `NumOK` (`digits? . digits`).  Multiplicities, step types, TTC
+operators and risk flags need no condition.  The proof follows the printer: one lemma `prX_lexOK` per function. -/
+theorem prSpec_lexable (s : CSpec) (h : NamesLexable s) : ∀ t ∈ prSpec s, LexOK t := prSpec_allOK s h
+
+/-- `NamesLexable` is decided by the Boolean checker `namesLexableB` -/
+theorem namesLexable_decide (s : CSpec) : namesLexableB s = true ↔ NamesLexable s := namesLexableB_iff s
+
+/-- `IdentOK` is exactly lexability of the name as an identifier … -/
+theorem identOK_iff_lexOK (n : String) : IdentOK n ↔ LexOK (.id n) := (lexOK_id_iff n).symm
+
+/-- … and holds for `[A-Za-z_][A-Za-z0-9_]*` outside the reserved words (the hypotheses of `ident_lexable`) -/
+theorem ident_identOK (s : String) (c : Char) (cs : List Char) (hs : s.toList = c :: cs)
+    (hc : c.isAlpha = true ∨ c = '_') (hall : s.toList.all isIdChar = true) (hres : s ∉ reservedWords) :
+    IdentOK s := identOK_of_ident s c cs hs hc hall hres
+
+/-- from text to specification, with conditions on the specification only: the file containing the rendered
+printed specification compiles to it -/
+theorem compile_render_print_names (files : String → Option String) (f : Nat) (name : String) (s : CSpec)
+    (hw : WFSpec s) (hn : NamesLexable s) (hfile : files name = some (render (prSpec s))) :
+    compileFile files (f+1) name = some s :=
+  compile_render_print files f name s hw (prSpec_lexable s hn) hfile
+
+/-- the conditions on names are needed: a step called `E`, an asset called `7`, a number without `.` -/
+example : lex (render [.or_, .id "E"]) = some [.or_, .exists_] ∧
+    lex (render [.kwAsset, .id "7"]) = some [.kwAsset, .int "7"] ∧
+    lex (render [.lsquare, .float "3", .rsquare]) = some [.lsquare, .int "3", .rsquare] := by decide
+
+/- UNPROVED: nothing of the text level is left open.  (Not stated: the converse of `prSpec_lexable`; it needs every
+   asset to lie in a listed category — `WFSpec.grouped` — since other assets are not printed.)
    FALSE as stated in the brief (see `fuel_mono_fails`), replaced by `fuel_mono_partial` / `fuel_mono_decl_partial`:
      theorem fuel_mono_expr (f) (reach) (ts) (r) : parseExpr f reach ts = some r → parseExpr (f+1) reach ts = some r
    (and the same for every function that reaches `parseTypes`, `parseTags` or `parseMetas`). -/
@@ -408,5 +437,14 @@ theorem demoSpec_lexable : ∀ t ∈ prSpec demoSpec, LexOK t := by
 example : compileFile (fun n => if n = "demo.mal" then some (render (prSpec demoSpec)) else none) 1 "demo.mal" =
     some demoSpec :=
   compile_render_print _ 0 "demo.mal" demoSpec demoSpec_wf demoSpec_lexable (by simp)
+
+/-- its names and literals are lexable (checked on the specification, not on its printed tokens) -/
+example : namesLexableB demoSpec = true := by decide
+
+theorem demoSpec_names : NamesLexable demoSpec := (namesLexable_decide demoSpec).mp (by decide)
+
+example : compileFile (fun n => if n = "demo.mal" then some (render (prSpec demoSpec)) else none) 1 "demo.mal" =
+    some demoSpec :=
+  compile_render_print_names _ 0 "demo.mal" demoSpec demoSpec_wf demoSpec_names (by simp)
 
 end MalVerif.C04
